@@ -289,6 +289,16 @@ def judge(obs, case, plan, outcome, label, constraint=None):  # noqa: C901, PLR0
         if constraint is not None and not np.max(np.abs(constraint.c(pos))) < 1e-8:
             obs.violation(f"returned-state-off-manifold:{tkind}", f"returned position violates the constraint by {np.max(np.abs(constraint.c(pos))):.2e}; {ctxs}")
         raised = [exc for (exc, _b, _t) in rec["steps"] if exc is not None]
+        if tkind in ("static", "random"):
+            # a Metropolis transition proposes the END of its trajectory: a trajectory cut short by a failure is a
+            # rejection (state unchanged), and no intermediate state is ever a candidate
+            obs.count("metropolis_outcomes_checked")
+            if raised and pb != rec["start"].tobytes():
+                obs.violation(f"moved-after-integration-failure:{tkind}",
+                              f"{raised[0]} cut the trajectory after {sum(1 for s_ in rec['steps'] if s_[1] is not None)} successful step(s) "
+                              f"but the chain moved to the truncated trajectory's last state; {ctxs}")
+            elif not raised and pb != rec["start"].tobytes() and rec["steps"] and pb != rec["steps"][-1][1]:
+                obs.violation(f"intermediate-state-accepted:{tkind}", f"the accepted state is not the end point of the trajectory; {ctxs}")
         for exc in raised:
             obs.count("step_exception_flag_checks")
             flag = {"ConvergenceError": "convergence_error", "NonReversibleStepError": "non_reversible_step",
